@@ -338,6 +338,14 @@ def _ref_from_float(xmin, xmax, ymin, ymax):
     return (lo(xmin), hi(xmax), lo(ymin), hi(ymax))
 
 
+def _ff_history(K, rect):
+    b1 = K.from_float(*rect)
+    b1.ixmin -= 5
+    b1.iymax += 3
+    b2 = K.from_float(*rect)
+    return b2 is b1, _tup(b2)
+
+
 def check_from_float(res, rect):
     from regions import RegionBoundingBox
     case = {'op': 'from_float', 'rect': [float(v) for v in rect]}
@@ -361,6 +369,14 @@ def check_from_float(res, rect):
     if not covers or not minimal:
         _V(res, 'from_float_wrong', case, f'from_float{tuple(rect)} = {bt}: covers={covers} minimal={minimal}',
            list(exp), list(bt))
+    # a history: the caller edits the box it was given and asks again -- the second answer is a fresh, correct box
+    ok, r = _call(res, lambda: _ff_history(RegionBoundingBox, rect))
+    if not ok:
+        _V(res, 'from_float_raises', case, f'from_float{tuple(rect)} called again after editing the first result raised {r}')
+    elif r[0] or r[1] != exp:
+        _V(res, 'from_float_wrong', case, f'from_float{tuple(rect)} called again after the first result was edited in place = {r[1]}'
+                                           f'{" (the same object as the edited one)" if r[0] else ""}; smallest covering box is {exp}',
+           list(exp), list(r[1]))
     onb = any((_frac(v) + Fraction(1, 2)).denominator == 1 for v in rect)
     res.outcome(('from_float', onb))
     if onb:
@@ -433,7 +449,7 @@ def check_typed_pair(res, a, b, ta, tb):
         _V(res, 'intersection_wrong', case, f'typed intersection {it} != {ref}', ref, it)
     if sh != (a[3] - a[2], a[1] - a[0]):
         _V(res, 'shape_wrong', case, f'typed shape {sh}')
-    if ex != (a[0] - 0.5, a[1] - 0.5, a[2] - 0.5, a[3] - 0.5):
+    if max(abs(v) for v in a) < 2 ** 51 and ex != (a[0] - 0.5, a[1] - 0.5, a[2] - 0.5, a[3] - 0.5):
         _V(res, 'extent_wrong', case, f'typed extent {ex}')
     if not eq:
         _V(res, 'eq_wrong', case, 'typed box != same box built from python ints')
@@ -658,6 +674,18 @@ def run_shard(shard, tier, seed):
                         res.states += 1
                         res.evaluations += 1
                         check_typed_pair(res, a, b, ta, tb)
+        # corners that a double cannot tell apart (beyond 2^52): the algebra is integer algebra there as well
+        for ta in ('pyint', 'int64'):
+            for tb in ('pyint', 'int64'):
+                for m in (2 ** 52 + 1, 2 ** 53 + 1, -(2 ** 53) - 1, 2 ** 62 + 1, -(2 ** 62) - 3):
+                    a = (m - 2, m + 1, m - 1, m + 2)
+                    for d in (-7, -2, -1, 0, 1, 3, 7):
+                        m2 = m + d
+                        b = (m2 - 1, m2 + 3, m2 - 3, m2 + 1)
+                        res.states += 1
+                        res.evaluations += 1
+                        check_typed_pair(res, a, b, ta, tb)
+        res.axis('corner_magnitude', 'beyond 2^52')
         for t in ('int8', 'int16', 'int32', 'uint8', 'uint16', 'uint32'):
             res.states += 1
             res.evaluations += 1
